@@ -1,5 +1,5 @@
 """Which functions, lemmas, mutations and bounded stand-ins decide each property."""
-from contracts import sort_c, gfa_c
+from contracts import sort_c, gfa_c, gaf_c
 
 SORT = "gaftools/cli/sort.py"
 CONV = "gaftools/conversion.py"
@@ -7,6 +7,11 @@ UTILS = "gaftools/utils.py"
 INDEX = "gaftools/cli/index.py"
 VIEW = "gaftools/cli/view.py"
 GFA = "gaftools/gfa.py"
+ORDER = "gaftools/cli/order_gfa.py"
+PHASE = "gaftools/cli/phase.py"
+STAT = "gaftools/cli/stat.py"
+REALIGN = "gaftools/cli/realign.py"
+GAFPY = "gaftools/gaf.py"
 PLAN = {}
 
 PLAN["C01"] = dict(
@@ -182,5 +187,100 @@ PLAN["C04"] = dict(
     mutations=[
         dict(name="unaligned-node guard removed", file=VIEW, old="            if nd in ind_dict:\n                offsets.update(ind[ind_dict[nd]])", new="            offsets.update(ind[ind_dict[nd]])", expect="run#select-offsets"),
         dict(name="first named node skipped", file=VIEW, old="        for nd in nodes:\n            # extracting", new="        for nd in nodes[1:]:\n            # extracting", expect="run#select-offsets", quick=False),
+    ],
+)
+
+PLAN["C06"] = dict(
+    level="other",
+    functions=[(ORDER, "decompose_and_order#numbering"), (ORDER, "decompose_and_order#orientation")],
+    explanation="PROVED (relative to the decomposition handed over by biccs/dfs, which is bounded-checked in C15): the numbering loop gives the "
+                "t-th chain element BO = bo_start + t, scaffold nodes NO = 0, the inner nodes of a bubble that BO and NO = 1 + their rank in "
+                "python's sorted() of the ids, and returns bo_start + chain length (so successive chromosomes get consecutive, disjoint ranges "
+                "in request order); the orientation step leaves scaffold offsets ascending and reverses the traversal iff the end offsets were "
+                "descending. BOUNDED: that the traversal handed over is the bubble chain (biccs/dfs/census), independence of line order, of "
+                "PYTHONHASHSEED and of earlier BO/NO tags, end-to-end on generated chain graphs with a definitional oracle.",
+    trusted_base=["biccs / dfs / scaffold-graph census deliver the chain (elements distinct, bubbles disjoint): assumed here, BOUNDED in C15/C06",
+                  "python string order is an uninterpreted strict total order str_lt; sorted(set) lists the members increasingly (assumed)",
+                  "single-scaffold end-bubble offsets (min over a comprehension): BOUNDED only"],
+    not_applicable_clauses=["biccs beyond the enumerated bound (inherited from C15)"],
+    mutations=[
+        dict(name="NO starts at 0", file=ORDER, old="                node_order[n] = (bo, i + 1)", new="                node_order[n] = (bo, i)", expect="numbering"),
+        dict(name="bo incremented only for scaffold nodes", file=ORDER, old="            assert False\n        bo += 1", new="            assert False\n        if node_type == \"s\":\n            bo += 1", expect="numbering"),
+        dict(name="traversal not reversed", file=ORDER, old="        traversal.reverse()\n        traversal_scaffold_only.reverse()", new="        traversal_scaffold_only.reverse()", expect="orientation"),
+    ],
+)
+
+PLAN["C18"] = dict(
+    level="other",
+    functions=[(ORDER, "run_order_gfa#skip-frame"), (ORDER, "decompose_and_order#numbering")],
+    explanation="PROVED: when decompose_and_order returns the skip value, the chromosome loop of run_order_gfa leaves the running BO, the bubble total "
+                "and the lists of files to concatenate untouched (frame), so the next chromosome is numbered from the same bo_start as in a run "
+                "without the skipped one; the numbering is a function of (chain, bo_start) only. BOUNDED: that every non-chain shape (branching "
+                "tips, >= 3 articulation points on a cycle, single block) makes decompose_and_order return the skip value without raising, and "
+                "byte-identity of the other chromosomes' files at every position of --chromosome_order.",
+    trusted_base=["census / bubble-less-block branch of decompose_and_order returns the skip value for every non-chain shape: BOUNDED stand-in only"],
+    mutations=[
+        dict(name="bo = new_bo made unconditional", file=ORDER, old="        if scaffold_nodes:\n            bo = new_bo", new="        bo = new_bo\n        if scaffold_nodes:", expect="skip-frame"),
+    ],
+)
+
+PLAN["C16"] = dict(
+    level="proof",
+    functions=[(GAFPY, "GAF.parse_gaf_line"), (GAFPY, "Alignment.__str__"), (CONV, "to_stable")],
+    lemmas=[gaf_c.regex_lemmas],
+    explanation="Character level (z3 sequence/regex theory, on the regex literals re-read from the working tree): every field that is well-formed per the "
+                "project's own tag grammar (utils.tag_regex) is selected by parse_gaf_line's prefix regex, and a selected field splits at position 5 "
+                "into TAG:TYPE: and VALUE with prefix + suffix == field. Field level (for every number of optional fields): parse_gaf_line keeps "
+                "exactly the selected fields other than ds:Z:, keyed TAG:TYPE: in order of first occurrence, with the value verbatim "
+                "(key + value == the input field), takes optional fields from column 13 on only, sets cigar to the last cg:Z: value, and "
+                "is_primary iff no tp:A: field has a value other than P/p; Alignment.__str__ and to_stable's tail print the twelve columns and then "
+                "one field key+value per tag in stored order, inventing cg:Z: only when a CIGAR exists. A second occurrence of a TAG:TYPE is "
+                "dropped: that is the recorded known finding 'repeated-tag' (reported by the bounded stand-in as KNOWN-FINDING).",
+    trusted_base=["s[:k] + s[k:] == s; '%s' % x formats; split/join of tab-separated lines (assumed)", "to_unstable's and wfa_alignment's printing tails: BOUNDED stand-in only",
+                  "name cut at the first blank: words_of(name)[0] (assumed str.split)"],
+    not_applicable_clauses=["repeated TAG:TYPE fields: known finding 'repeated-tag' (known_findings.json), not repaired"],
+    mutations=[
+        dict(name="selector loses digit in tag name", file=GAFPY, old='if re.match("[A-Za-z][A-Za-z0-9]:[AifZHB]:", k):', new='if re.match("[A-Za-z][A-Za-z]:[AifZHB]:", k):', expect="well-formed-field-is-selected"),
+        dict(name="value cut one char late", file=GAFPY, old="                val = k[5:]", new="                val = k[6:]", expect="parse_gaf_line", functions=[(GAFPY, "GAF.parse_gaf_line")]),
+        dict(name="mandatory columns scanned again", file=GAFPY, old="        for k in fields[12:]:", new="        for k in fields[11:]:", expect="parse_gaf_line", functions=[(GAFPY, "GAF.parse_gaf_line")]),
+        dict(name="cg invented again", file=GAFPY, old='        if self.cigar or "cg:Z:" in self.tags:\n            self.tags["cg:Z:"] = self.cigar', new='        self.tags["cg:Z:"] = self.cigar', expect="__str__", functions=[(GAFPY, "Alignment.__str__")]),
+    ],
+)
+
+PLAN["C19"] = dict(
+    level="proof",
+    functions=[(STAT, "run_stat#loop"), (GAFPY, "GAF.parse_gaf_line")],
+    explanation="Main loop of run_stat for files of any length, against ghost prefix arrays that DEFINE the figures (NP = primary records, SB = sum of "
+                "residue matches, SQ = sum of MAPQ, per-operation run counts with a second-level prefix over the (length, op) pairs of each CIGAR, "
+                ">= 50 variants, single-run CIGARs): total = primary + secondary with primary = NP; aligned bases, MAPQ sum and every CIGAR counter "
+                "equal their defining prefix value; the read table holds exactly the names of primary records, each read's best map ratio / "
+                "identity is an upper bound over its primary records and is attained (ghost arg-max). All figures are functions of the multiset "
+                "of records except the float sums. is_primary is derived from the tp:A: field by parse_gaf_line (verified). The final averaging / "
+                "rounding / printing and order-invariance of the printed report are covered by the bounded stand-in.",
+    trusted_base=["floats as reals with uninterpreted division fdiv; float comparison = order of the reals (no NaN)",
+                  "itertools.groupby(cigar, str.isdigit) gives the maximal digit / non-digit runs (assumed)", "ghost prefix arrays built by X[k+1] = X[k] + d are the sums / counts",
+                  "averaging, round(), print: BOUNDED stand-in only"],
+    not_applicable_clauses=["exact floating-point rounding of sums under reordering (floats treated as reals)"],
+    mutations=[
+        dict(name="secondary counted without continue", file=STAT, old="            total_secondary += 1\n            continue", new="            total_secondary += 1", expect="run_stat", functions=[(STAT, "run_stat#loop")], quick=False),
+        dict(name=">= 50 -> > 50", file=STAT, old='                if all_cigars[cnt + 1] == "D":\n                    total_del += 1\n                    if int(all_cigars[cnt]) >= 50:', new='                if all_cigars[cnt + 1] == "D":\n                    total_del += 1\n                    if int(all_cigars[cnt]) > 50:', expect="run_stat", functions=[(STAT, "run_stat#loop")], quick=False),
+        dict(name="tp test ignores lower-case p", file=GAFPY, old='if pattern == "tp:A:" and val != "P" and val != "p":', new='if pattern == "tp:A:" and val != "P":', expect="parse_gaf_line", functions=[(GAFPY, "GAF.parse_gaf_line")]),
+    ],
+)
+
+PLAN["C20"] = dict(
+    level="proof",
+    functions=[(PHASE, "add_phase_info#tsv"), (PHASE, "add_phase_info#records")],
+    explanation="TSV loop: the table holds exactly the reads listed, each with the columns of its FIRST line (ghost first-index). Record loop, for any "
+                "number of records and optional fields, on a line-structured output sink: one output line per input record in order; its first "
+                "twelve fields are the input's columns including the strand; then ps:Z:<chr>-<phase set> and ht:Z:<haplotype> when the read is in "
+                "the TSV with a haplotype other than 'none', else ps:Z:none / ht:Z:none; then exactly the input's optional fields key+value in "
+                "order; no other field (so no empty field and no bare CIGAR column).",
+    trusted_base=["records are those GAF.parse_gaf_line returns (C16)", "'%s\\t%d' % ... formats; write() concatenation = field-list append (assumed)",
+                  "opening of the output (path or sys.stdout): bounded stand-in"],
+    mutations=[
+        dict(name="literal + strand", file=PHASE, old="                gaf_line.strand,\n", new='                "+",\n', expect="add_phase_info#records", functions=[(PHASE, "add_phase_info#records")]),
+        dict(name="tags printed with an extra colon", file=PHASE, old='gaf_out.write("\\t%s%s" % (k, gaf_line.tags[k]))', new='gaf_out.write("\\t%s:%s" % (k, gaf_line.tags[k]))', expect="add_phase_info#records", functions=[(PHASE, "add_phase_info#records")]),
+        dict(name="last TSV entry wins", file=PHASE, old="        if line_elements[0] not in phase:", new="        if True:", expect="add_phase_info#tsv", functions=[(PHASE, "add_phase_info#tsv")]),
     ],
 )
